@@ -260,6 +260,9 @@ func DoWithErrHandle(err error, ch <-chan ErrHandler) DoOption {
 
 func DoWithValue(key, value any) DoOption {
 	return func(rsp *DoResponse) {
+		if rsp.Context == nil {
+			rsp.Context = context.Background()
+		}
 		rsp.Context = context.WithValue(rsp.Context, key, value)
 	}
 }
